@@ -76,6 +76,15 @@ def doAck (s : Sess) (v : Int) : Sess × String :=
   let rs := match r with | .ok => "ok" | .unknownSnap => "err UnknownSnap"
   ({ s with sender := st' }, s!"{rs} dt={optStr st'.deltaTick} w={if w then "WeirdNegativeDeltaTick" else "-"}")
 
+def deliver (s : Sess) (m : Msg) : Sess × String :=
+  let ops := tableOps s.entries s.infos
+  let (c', res, ws) := s.client.step ops m
+  let line := match res with
+    | .error e => s!"err {e.name}"
+    | .ok none => "ok none"
+    | .ok (some sn) => s!"ok snap tick={m.tick} crc={ops.crc sn} items={itemsOf s.infos sn}"
+  ({ s with client := c' }, s!"{line} ack={optStr c'.ackTick} w={wStr ws}")
+
 def step (s : Sess) (toks : List String) : Sess × String :=
   let main := toks.takeWhile (· ≠ "|")
   let hint := (toks.dropWhile (· ≠ "|")).drop 1
@@ -94,17 +103,19 @@ def step (s : Sess) (toks : List String) : Sess × String :=
     | some t, ["panic"] => doSend s t 4000000000
     | some _, ["builder-err", name] => (s, s!"builder-err {name}")
     | _, _ => (s, "bad-args")
+  | ["dc", i, dl] =>
+    match (parseNat i).bind (s.msgs[·]?), parseInt dl with
+    | some m, some dl =>
+      let m' := match m with
+        | Msg.single t dt c d => Msg.single t dt (wrap32 (c + dl)) d
+        | Msg.snap t dt n p c d => Msg.snap t dt n p (wrap32 (c + dl)) d
+        | Msg.empty t dt => Msg.empty t dt
+      deliver s m'
+    | _, _ => (s, "bad-index")
   | ["d", i] =>
     match (parseNat i).bind (s.msgs[·]?) with
     | none => (s, "bad-index")
-    | some m =>
-      let ops := tableOps s.entries s.infos
-      let (c', res, ws) := s.client.step ops m
-      let line := match res with
-        | .error e => s!"err {e.name}"
-        | .ok none => "ok none"
-        | .ok (some sn) => s!"ok snap tick={m.tick} crc={ops.crc sn} items={itemsOf s.infos sn}"
-      ({ s with client := c' }, s!"{line} ack={optStr c'.ackTick} w={wStr ws}")
+    | some m => deliver s m
   | ["ack"] =>
     let v := s.client.ackTick.getD (-1)
     ({ s with acks := s.acks ++ [v] }, s!"ackmsg {s.acks.length} {v}")
